@@ -1,4 +1,5 @@
 """C02 - length and integer indexing agree with iteration (Model A)."""
+import warnings
 from .. import model_a, common
 
 PROP_FILE = 'props/C02.v'
@@ -101,6 +102,91 @@ def source_history(ld, r, count):
     return fails
 
 
+def _same02(x):
+    return x
+
+
+def falsy_examples_family(ld, r, count):
+    """examples that are None / 0 / '' / False / () / [] pass through every stage class (and through the profiling wrapper around
+    it): what is iterated is what the source holds, len() - where defined - is the number of iterated examples, ds[i] is the i-th one"""
+    import itertools, numpy as np
+    fails = []
+    VALS = [None, None, 0, '', False, (), [], 5]
+    STAGES = ['plain', 'map', 'catch', 'prefetch1', 'prefetch2', 'cache', 'items', 'batch1_unbatch', 'filter_true', 'sort', 'shuffle_once', 'reshuffle',
+              'local_shuffle', 'tile', 'concat', 'intersperse', 'zip', 'key_zip', 'slice', 'copy', 'lazyapply', 'parmap', 'batch', 'cycle']
+    with warnings.catch_warnings():
+        warnings.simplefilter('ignore')
+        for _ in range(count):
+            n = r.randint(1, 5)
+            vals = [r.choice(VALS) for _i in range(n)]
+            keyed = r.random() < 0.5
+            st = r.choice(STAGES)
+            prof = r.random() < 0.4
+
+            def build():
+                b = ld.new({f'key{i}': v for i, v in enumerate(vals)} if keyed else list(vals))
+                if st == 'plain': return b, vals, True
+                if st == 'map': return b.map(_same02), vals, True
+                if st == 'catch': return b.catch(), vals, True
+                if st == 'prefetch1': return b.prefetch(1, 2), vals, True
+                if st == 'prefetch2': return b.prefetch(2, 2), vals, True
+                if st == 'cache': return b.cache(), vals, True
+                if st == 'items': return (b.items(), [(f'key{i}', v) for i, v in enumerate(vals)], True) if keyed else (b, vals, True)
+                if st == 'batch1_unbatch': return b.batch(1).unbatch(), vals, True
+                if st == 'filter_true': return b.filter(lambda x: True), vals, True
+                if st == 'sort': return b.sort(lambda x: 0), vals, True
+                if st == 'shuffle_once': return b.shuffle(False, rng=np.random.RandomState(1)), vals, False
+                if st == 'reshuffle': return b.shuffle(True, rng=np.random.RandomState(1)), vals, False
+                if st == 'local_shuffle': return b.shuffle(True, rng=np.random.RandomState(1), buffer_size=2), vals, False
+                if st == 'tile': return b.tile(2), vals + vals, True
+                if st == 'concat': return b.concatenate(b.map(_same02)), vals + vals, True
+                if st == 'intersperse': return b.map(_same02).intersperse(b[:1].map(_same02)), vals + vals[:1], False      # (the order table is C01's business)
+                if st == 'zip': return b.zip(b.map(_same02)), [(v, v) for v in vals], True
+                if st == 'key_zip': return (b.key_zip(b.map(_same02)), [(v, v) for v in vals], True) if keyed else (b, vals, True)
+                if st == 'slice': return b[::-1], vals[::-1], True
+                if st == 'copy': return b.map(_same02).copy(freeze=True), vals, True
+                if st == 'lazyapply': return b.apply(lambda d: d.map(_same02), lazy=True), vals, True
+                if st == 'parmap': return b.map(_same02, num_workers=2, buffer_size=2), vals, True
+                if st == 'batch': return b.batch(2), [vals[i:i + 2] for i in range(0, n, 2)], True
+                return b.cycle(), vals + vals, True
+            try:
+                d, want, ordered = build()
+                if prof:
+                    d = ld.core.ProfilingDataset(d)
+                lim = 2 * n if st == 'cycle' else None
+                with common.watchdog(20, lambda: f'iterating {st} over {vals!r}' + (' under the profiling wrapper' if prof else '')):
+                    got = list(itertools.islice(iter(d), lim))
+                    again = list(itertools.islice(iter(d), lim))
+                key = (lambda l: sorted(map(repr, l))) if not ordered else (lambda l: list(map(repr, l)))
+                what = f'{"ProfilingDataset of " if prof else ""}{st} over the {"dict" if keyed else "list"} source {vals!r}'
+                if key(got) != key(want) or key(again) != key(want):
+                    fails.append(dict(kind='history', summary=f'{what}: iteration delivers {got!r}, then {again!r}; expected {want!r}'[:600], config=dict(kind='falsy', stage=st, vals=[repr(v) for v in vals])))
+                    continue
+                try:
+                    ln = len(d)
+                except Exception:
+                    ln = None
+                if ln is not None and ln != len(got):
+                    fails.append(dict(kind='history', summary=f'{what}: len() = {ln}, iteration delivers {len(got)} examples'[:600], config=dict(kind='falsy', stage=st, vals=[repr(v) for v in vals])))
+                    continue
+                if ordered and ln is not None:
+                    try:
+                        idx = bool(d.indexable)
+                    except Exception:
+                        idx = False
+                    if idx:
+                        byi = [d[i] for i in range(ln)]
+                        if key(byi) != key(want):
+                            fails.append(dict(kind='history', summary=f'{what}: position access delivers {byi!r}, iteration {got!r}'[:600], config=dict(kind='falsy', stage=st, vals=[repr(v) for v in vals])))
+            except common.ImplMisbehaviour as e:
+                fails.append(dict(kind='history', summary=f'{"ProfilingDataset of " if prof else ""}{st} over {vals!r} does not come back: {e}'[:400], config=dict(kind='falsy', stage=st)))
+                if len(fails) > 3:
+                    break
+            except Exception as e:
+                fails.append(dict(kind='history', summary=f'{"ProfilingDataset of " if prof else ""}{st} over {vals!r} raised {type(e).__name__}: {e}'[:400], config=dict(kind='falsy', stage=st)))
+    return fails
+
+
 def run(tier):
     # the known finding F15 is replayed on every run (its witness is the first case)
     res = model_a.run_a('C02', tier, WANT, n_quick=1500, n_thorough=40000, direct=direct,
@@ -110,8 +196,18 @@ def run(tier):
     sh = source_history(ld, common.rng_for('C02-src'), 200 if tier == 'quick' else 3000)
     res['failures'] += sh
     res['coverage']['source_container_histories'] = 200 if tier == 'quick' else 3000
+    nf = 400 if tier == 'quick' else 6000
+    res['failures'] += falsy_examples_family(ld, common.rng_for('C02-falsy'), nf)
+    res['coverage']['falsy_example_pipelines'] = nf
     return res
 
 
 def replay(payload):
+    if 'program' not in payload:
+        from .. import common
+        ld = common.import_impl()
+        ff = falsy_examples_family(ld, common.rng_for('C02-falsy'), 400) + source_history(ld, common.rng_for('C02-src'), 200)
+        for f in ff[:3]:
+            print('  ', f['summary'][:300])
+        return bool(ff)
     return model_a.replay_a(payload)
